@@ -35,7 +35,8 @@ def cases(tier, seed):
             cs.append(("m-range", rule, m))
     for m1, m2 in ((0, 0), (1, 0), (0, 1), (1, 2), (2, 3), (2, 2), (3, 1), (-1, -2)):
         cs.append(("alaska-stages", m1, m2))
-    for vec in ((3, 2, 1), (1, 1, 1), (0, 0, 0), (1, 0, F(1, 10 ** 9)), (1, 2, 0), (-1, 0, 0), (1, 0, -F(1, 10 ** 9)), (2, 2 + 1e-9, 1), (1.5, 1.5, 0.2)):
+    for vec in ((3, 2, 1), (1, 1, 1), (0, 0, 0), (1, 0, F(1, 10 ** 9)), (1, 2, 0), (-1, 0, 0), (1, 0, -F(1, 10 ** 9)), (2, 2 + 1e-9, 1), (1.5, 1.5, 0.2),
+                (-1,), (-F(1, 10 ** 9),), (1,), (0,), (1, 2), (-1, -2), (2, 1, 0, -F(1, 10 ** 9)), (3, 2, 1, 0, 1), (1, -1)):
         cs.append(("score-vector", vec))
     for L, k in ((1, None), (0, None), (-1, None), (1, 0), (1, -1), (2, 1), (1, 1), (F(1, 2), F(1, 2)), (1, F(999999, 1000000))):
         cs.append(("rating-limits", L, k))
